@@ -189,7 +189,7 @@ func runC11(w *mon.W) {
 		}
 	}
 	w.Extra("exhaustive_parts", parts)
-	nRand := w.Pick(5000, 100000)
+	nRand := w.Pick(30000, 300000)
 	for i := 0; i < nRand; i++ {
 		id := fmt.Sprintf("rand-%d", i)
 		idx++
